@@ -280,4 +280,11 @@ theorem T0x0801_ReplyBody_eq (fuel : Nat) (t : model_T0x0801) (j : jt808_JTMessa
   simp only [model_T0x0801_ReplyBody, T0x0801_Parse_eq fuel t j h36 hf, X.bind_ok, model_P0x8800_Encode]
   simp [make, putU32At, model_P0x8800.zero]
 
+/-- a multimedia upload too short to parse is still answered — with the ID the handler holds from the previous upload
+on the connection (`_ = t.Parse(jtMsg)`: the error is ignored) -/
+theorem T0x0801_ReplyBody_short (fuel : Nat) (t : model_T0x0801) (j : jt808_JTMessage) (h : j.Body.length < 36) :
+    model_T0x0801_ReplyBody fuel t j = X.ok (t, Go.be32 t.MultimediaID, none) := by
+  simp only [model_T0x0801_ReplyBody, T0x0801_Parse_short fuel t j h, X.bind_ok, model_P0x8800_Encode]
+  simp [make, putU32At, model_P0x8800.zero]
+
 end JT.Gen.GoModel
